@@ -452,7 +452,7 @@ def correspondence(ctx):
         ctx.count({"csr_length": e}, False, None, "csr_length")
 
     # regular system
-    n = ctx.n(250, 3000)
+    n = ctx.n(200, 1000)
     cases, meta = [], []
     for i in range(n):
         spec = gen_cfg(rng, big=(i % 97 == 96))
@@ -466,7 +466,7 @@ def correspondence(ctx):
 
     # snax_alu with arbitrary configurations
     cases, meta = [], []
-    for i in range(ctx.n(40, 400)):
+    for i in range(ctx.n(40, 160)):
         spec = gen_cfg(rng)
         opspec = gen_op(rng, spec)
         fields, vals = impl_alu(spec, opspec)
@@ -477,7 +477,7 @@ def correspondence(ctx):
 
     # xDMA
     cases, meta = [], []
-    for i in range(ctx.n(80, 800)):
+    for i in range(ctx.n(80, 320)):
         spec = gen_cfg(rng, xdma=True) if i % 5 else list(XDMA_DEFAULT)
         opspec = gen_op(rng, spec, valid_only=(i % 3 != 0))
         if len(opspec["operands"]) < 1 or len(opspec["pats"]) != len(opspec["operands"]):
@@ -493,7 +493,7 @@ def correspondence(ctx):
 
     # gemmx
     cases, meta = [], []
-    for i in range(ctx.n(60, 600)):
+    for i in range(ctx.n(60, 240)):
         spec, n, opspec, kind, zp, resc = gen_gemmx_case(rng, i)
         fields, vals = impl_gemmx(spec, n, opspec, kind, zp, resc)
         cases.append(f"({coq_cfg(spec)}, {zlit(n)}, {coq_op(opspec)}, {coq_gbody(kind, resc)}, ({zlit(zp[0])}, {zlit(zp[1])}), "
@@ -964,7 +964,7 @@ def search(ctx, deep=False):
         for p in probs:
             fails.append(dict(case, what=p["what"], acc=acc, detail=p, klass=klass))
 
-    for i in range(ctx.n(120, 1500) * mult):
+    for i in range(ctx.n(120, 600) * mult):
         spec = gen_cfg(rng)
         opspec = gen_op(rng, spec, valid_only=True)
         if not opspec["pats"][0][0]:
@@ -985,7 +985,7 @@ def search(ctx, deep=False):
                                lambda nm: ("c", 0) if nm == "alu_mode" else (("c", opspec["pats"][0][0][0]) if nm == "loop_bound_alu" else None))
         run("snax_alu", "alu-pass", f, {"cfg": spec, "op": opspec})
 
-    for i in range(ctx.n(60, 800) * mult):
+    for i in range(ctx.n(60, 400) * mult):
         default = i % 4 == 0
         spec = list(XDMA_DEFAULT) if default else gen_cfg(rng, xdma=True)
         default = False   # snax_xdma is not among the accelerators snax-opt registers: no pass route
@@ -1000,7 +1000,7 @@ def search(ctx, deep=False):
         run("snax_xdma", "xdma", lambda: l2_xdma(spec, opspec, kind, resc, default), case,
             lambda: xdma_klass(spec, opspec, None if kind in ("none", "testop") else []))
 
-    for i in range(ctx.n(50, 600) * mult):
+    for i in range(ctx.n(50, 300) * mult):
         spec, n, opspec, kind, zp, resc = gen_gemmx_l2(rng, i)
         default = spec == GEMMX_DEFAULT and n == 8
         case = {"cfg": spec, "n": n, "op": opspec, "body": kind, "zp": list(zp), "rescale": resc, "through_pass": default}
